@@ -14,11 +14,49 @@ type TrimEnumValues struct {
 }
 
 func (t TrimEnumValues) Process(schemas []*ast.Schema) ([]*ast.Schema, error) {
+	allSchemas := ast.Schemas(schemas)
+
 	visitor := Visitor{
 		OnEnum: t.processEnum,
+		// the values that designate a member from elsewhere are written with the same spaces:
+		// the default of a reference to the enum, the value of a constant reference
+		OnRef: func(_ *Visitor, _ *ast.Schema, def ast.Type) (ast.Type, error) {
+			if defaultValue, ok := def.Default.(string); ok && t.designatesMember(allSchemas, def.AsRef(), defaultValue) {
+				def.Default = strings.TrimSpace(defaultValue)
+			}
+
+			return def, nil
+		},
+		OnConstantRef: func(_ *Visitor, _ *ast.Schema, def ast.Type) (ast.Type, error) {
+			constantRef := def.AsConstantRef()
+			enumRef := ast.RefType{ReferredPkg: constantRef.ReferredPkg, ReferredType: constantRef.ReferredType}
+
+			if value, ok := constantRef.ReferenceValue.(string); ok && t.designatesMember(allSchemas, enumRef, value) {
+				def.ConstantReference.ReferenceValue = strings.TrimSpace(value)
+			}
+
+			return def, nil
+		},
 	}
 
 	return visitor.VisitSchemas(schemas)
+}
+
+// designatesMember tells whether a value is, spaces aside, a member of the enum
+// that a reference designates.
+func (t TrimEnumValues) designatesMember(schemas ast.Schemas, ref ast.RefType, value string) bool {
+	object, found := schemas.LocateObject(ref.ReferredPkg, ref.ReferredType)
+	if !found || !object.Type.IsEnum() {
+		return false
+	}
+
+	for _, member := range object.Type.AsEnum().Values {
+		if text, ok := member.Value.(string); ok && strings.TrimSpace(text) == strings.TrimSpace(value) {
+			return true
+		}
+	}
+
+	return false
 }
 
 func (t TrimEnumValues) processEnum(_ *Visitor, _ *ast.Schema, def ast.Type) (ast.Type, error) {
